@@ -10,6 +10,13 @@ CONTRACTS = [
     "pendulum._helpers.days_in_year",
     "pendulum._helpers._day_number",
     "pendulum._helpers.local_time",
+    "pendulum.date.Date.day_of_week",
+    "pendulum.date.Date.day_of_year",
+    "pendulum.date.Date.week_of_year",
+    "pendulum.date.Date.days_in_month",
+    "pendulum.date.Date.quarter",
+    "pendulum.date.Date.is_leap_year",
+    "pendulum.date.Date.is_long_year",
 ]
 
 LEMMAS = []
@@ -34,6 +41,12 @@ ASSUMPTIONS = [
     "A-TYPES: arguments are Python ints",
     "Rust backend: never proved; bounded differential against the proved Python functions",
 ]
+
+def bounded(ctx):
+    from bounded import c15
+
+    c15.run(ctx)
+
 
 MANIFEST_ENTRY = {
     "text": "Every pure-Python calendar primitive (is_leap, is_long_year, week_day, days_in_year, _day_number, local_time with its four loops) is proved equal to the textbook proleptic-Gregorian specification for all integer inputs in range, by VCs generated from the real source and discharged by z3/cvc5; the Rust copies are compared exhaustively/bounded against the proved Python functions.",
